@@ -93,20 +93,30 @@ def gen_cases(ctx, ntypes):
                         count = rng.choice([0, 1, 1, 2, 3, 5])
                         adv = rng.choice(ADVS)
                         pa = ppn if how == "explicit" else 0
-                        cases.append((P, rng.randrange(1 << 30), adv, pa, ppn, 0, flavour, d, count, rng.randrange(1 << 16), 1))
+                        cases.append((P, rng.randrange(1 << 30), adv, pa, ppn, 0, flavour, d, count, rng.randrange(1 << 16), 1, 0))
+                # the same grid inherited by an MPI_Comm_dup'ed communicator (attribute copy callback): everything runs on the duplicate
+                how = rng.choice(["explicit", "split_type"])
+                cases.append((P, rng.randrange(1 << 30), rng.choice(ADVS), ppn if how == "explicit" else 0, ppn, 0, flavour, rng.randrange(8),
+                              rng.choice([1, 1, 2, 3]), rng.randrange(1 << 16), 1, 1))
     # not attached at all: every flavour must fall back to the basic behaviour
     for _ in range(6 if ctx.quick else 30):
         P = rng.choice([1, 2, 3, 5, 8])
-        cases.append((P, rng.randrange(1 << 30), rng.choice(ADVS), -1, 0, 0, rng.randrange(ntypes), rng.randrange(8), rng.choice([1, 2]), rng.randrange(1 << 16), rng.randrange(2)))
+        cases.append((P, rng.randrange(1 << 30), rng.choice(ADVS), -1, 0, 0, rng.randrange(ntypes), rng.randrange(8), rng.choice([1, 2]), rng.randrange(1 << 16), rng.randrange(2), rng.randrange(2)))
     # node sizes that are not all equal (ppn does not divide P): sc_mpi_comm_attach_node_comms must not attach
     for _ in range(6 if ctx.quick else 30):
         P = rng.choice([3, 5, 7, 8, 10])
         ppn = rng.choice([d for d in range(2, P) if P % d != 0] or [2])
-        cases.append((P, rng.randrange(1 << 30), rng.choice(ADVS), 0, ppn, 0, rng.randrange(ntypes), rng.randrange(8), 1, rng.randrange(1 << 16), rng.randrange(2)))
+        cases.append((P, rng.randrange(1 << 30), rng.choice(ADVS), 0, ppn, 0, rng.randrange(ntypes), rng.randrange(8), 1, rng.randrange(1 << 16), rng.randrange(2), rng.randrange(2)))
     # the dedicated probe of finding F-C14a: round-robin node partition
     for (P, ppn) in ([(8, 4), (9, 3), (4, 2)] if ctx.quick else [(8, 4), (9, 3), (4, 2), (6, 2), (6, 3), (12, 4), (16, 4)]):
         for flavour in range(ntypes):
-            cases.append((P, rng.randrange(1 << 30), rng.choice(ADVS), 0, ppn, 1, flavour, 3, 1, rng.randrange(1 << 16), 1))
+            cases.append((P, rng.randrange(1 << 30), rng.choice(ADVS), 0, ppn, 1, flavour, 3, 1, rng.randrange(1 << 16), 1, 0))
+    # duplicates on proper grids (more than one node AND more than one rank per node), where a transposed or otherwise
+    # wrong inherited grid changes the arrays of the window flavours
+    for (P, ppn) in ([(4, 2), (6, 2), (6, 3), (8, 2), (12, 3)] if ctx.quick else [(4, 2), (6, 2), (6, 3), (8, 2), (8, 4), (9, 3), (10, 5), (12, 3), (12, 4), (16, 4), (18, 6)]):
+        for flavour in range(ntypes):
+            cases.append((P, rng.randrange(1 << 30), rng.choice(ADVS), rng.choice([0, ppn]), ppn, 0, flavour, rng.randrange(8), rng.choice([1, 2]),
+                          rng.randrange(1 << 16), 1, 1))
     # write rounds that follow each other directly (no barrier between a reader's last read and the next
     # sc_shmem_write_start): probe of the recorded finding for the window flavours; must hold for the others
     for _ in range(40 if ctx.quick else 300):
@@ -114,7 +124,7 @@ def gen_cases(ctx, ntypes):
         ppn = rng.choice([d for d in range(1, P + 1) if P % d == 0])
         pa = rng.choice([0, ppn])
         cases.append((P, rng.randrange(1 << 30), rng.choice(ADVS + [1, 6, 7]), pa, ppn, 0, rng.randrange(ntypes), rng.randrange(8), rng.choice([1, 2]),
-                      rng.randrange(1 << 16), 0))
+                      rng.randrange(1 << 16), 0, 0))
     return cases
 
 
@@ -157,9 +167,11 @@ def pattern(dseed, rnd, node, n):
 
 
 def judge(ctx, c, r, bad, ntypes):
-    P, seed, adv, pa, ppn, nonc, flavour, d, count, dseed, sync = c
+    P, seed, adv, pa, ppn, nonc, flavour, d, count, dseed, sync, dup = c
     ts = TSIZE[d]
-    key = "%s%s-P%d-ppn%d-%s-%s-n%d" % ("roundrobin-" if nonc else "", FNAME[flavour], P, ppn, "explicit" if pa > 0 else ("none" if pa < 0 else "splittype"), TNAME[d], count)
+    key = "%s%s-P%d-ppn%d-%s-%s-n%d%s" % ("roundrobin-" if nonc else "", FNAME[flavour], P, ppn, "explicit" if pa > 0 else ("none" if pa < 0 else "splittype"), TNAME[d], count,
+                                       "-dup" if dup else "")
+    on = "the MPI_Comm_dup'ed communicator, " if dup else ""
     rep = dict(case=list(c), rc=r.rc, report=r.report[:2000])
 
     def viol(kind, text):
@@ -197,10 +209,15 @@ def judge(ctx, c, r, bad, ntypes):
         g = tuple(int(x) for x in o["grid"].split("/"))
         if grid[q] is None:
             if g != (-1, -1, -1, -1):
-                viol("grid", "rank %d: node communicators attached (%s) although none were expected" % (q, o["grid"]))
+                viol("grid", "%srank %d: node communicators attached (%s) although none were expected" % (on, q, o["grid"]))
         elif g != grid[q]:
             rep["rank"], rep["got"], rep["expected"] = q, list(g), list(grid[q])
-            viol("grid", "rank %d: position (intrarank/intrasize/interrank/intersize) %s, expected %s" % (q, g, grid[q]))
+            viol("grid", "%srank %d: position (intrarank/intrasize/interrank/intersize) %s, expected %s" % (on, q, g, grid[q]))
+        if dup:
+            og = tuple(int(x) for x in o.get("og", "-9/-9/-9/-9").split("/"))
+            if og != (grid[q] if grid[q] is not None else (-1, -1, -1, -1)):
+                rep["rank"] = q
+                viol("grid-original", "rank %d: after freeing the duplicate the ORIGINAL communicator reports position %s, expected %s" % (q, og, grid[q]))
         if o.get("det") != "1":
             rep["rank"] = q
             viol("detach", "rank %d: sc_mpi_comm_get_node_comms still returns communicators after sc_mpi_comm_detach_node_comms" % q)
@@ -209,10 +226,10 @@ def judge(ctx, c, r, bad, ntypes):
         ag, pre, cp = decode(d, hb(o["ag"])), decode(d, hb(o["pre"])), decode(d, hb(o["cp"]))
         if ag != exp_ag:
             rep["rank"], rep["got"], rep["expected"] = q, ag, exp_ag
-            viol("allgather", "rank %d sees %s after sc_shmem_allgather, contributions in rank order are %s" % (q, ag[:12], exp_ag[:12]))
+            viol("allgather", "%srank %d sees %s after sc_shmem_allgather, contributions in rank order are %s" % (on, q, ag[:12], exp_ag[:12]))
         if pre != exp_pre:
             rep["rank"], rep["got"], rep["expected"] = q, pre, exp_pre
-            viol("prefix", "rank %d sees %s after sc_shmem_prefix, expected (0, s0, s0+s1, ...) = %s" % (q, pre[:12], exp_pre[:12]))
+            viol("prefix", "%srank %d sees %s after sc_shmem_prefix, expected (0, s0, s0+s1, ...) = %s" % (on, q, pre[:12], exp_pre[:12]))
         node = grid[q][2] if grid[q] is not None else 0
         if cp != ag:
             rep["rank"], rep["got"], rep["expected"] = q, cp, ag
@@ -242,7 +259,7 @@ def judge(ctx, c, r, bad, ntypes):
 CODES = {"MPI_Win_unlock": 6, "MPI_Win_free": 10}
 
 
-def rank_calls(trace, P):
+def rank_calls(trace, P, dup=0):
     """per rank: phase name -> list of call codes (see C14/ShmemModel.v) between the harness' trace notes"""
     by = [[] for _ in range(P)]
     for e in trace:
@@ -251,6 +268,7 @@ def rank_calls(trace, P):
     out = []
     for q in range(P):
         world = intra = inter = None
+        world2 = intra2 = inter2 = None
         phase = None
         d = {}
         made = set()          # communicators created by attach on this rank and not freed yet
@@ -262,8 +280,29 @@ def rank_calls(trace, P):
                 d[phase] = []
                 if phase == "mA":
                     d["_life_attach"] = len(made)
+                    if dup:
+                        # from now on the calls are issued on the duplicate and on ITS node communicators: what the
+                        # trace shows as duplicate of the intranode (internode) communicator must be used as such
+                        world, intra, inter = world2, intra2, inter2
+                if phase == "end":
+                    d["_life_end"] = len(made)
                 if phase == "free":
                     d["_life_detach"] = len(made)
+                continue
+            if phase == "dup" and f == "MPI_Comm_dup":
+                if c == intra and intra is not None:
+                    intra2 = e.get("newc")
+                    made.add(intra2)
+                    d["dup"].append(11)
+                elif c == inter and inter is not None:
+                    inter2 = e.get("newc")
+                    made.add(inter2)
+                    d["dup"].append(12)
+                elif c == world:
+                    world2 = e.get("newc")
+                    d["dup"].append(13)
+                else:
+                    d["dup"].append(90)
                 continue
             if world is not None and f in ("MPI_Comm_split", "MPI_Comm_split_type") and e.get("newc", -1) not in (-1, None):
                 made.add(e.get("newc"))
@@ -276,7 +315,7 @@ def rank_calls(trace, P):
                     intra = e.get("newc")
                 elif inter is None:
                     inter = e.get("newc")
-            if phase is None or phase in ("end", "free"):
+            if phase is None or phase in ("end", "free", "dup", "dfree"):
                 continue
             if f == "MPI_Allgather":
                 code = 1 if c == world else (4 if c == inter else 91)
@@ -308,7 +347,8 @@ def run(ctx):
     if ctx.replay:
         rp = json.load(open(ctx.replay)).get("replay", {})
         if "case" in rp:
-            cases = [tuple(rp["case"])] + cases[:5]
+            rc0 = tuple(rp["case"])
+            cases = [rc0 + (0,) * (12 - len(rc0))] + cases[:5]
     env = dict(os.environ, VERIF_SCRATCH=ctx.scratch, ASAN_OPTIONS="detect_leaks=0")
     text = "".join(" ".join(str(x) for x in c) + "\n" for c in cases)
     rc, lines, err = ctx.run_lines([exe], text, timeout=1500, env=env)
@@ -320,11 +360,11 @@ def run(ctx):
         ctx.violation("crash", "c14 harness ended with status %s while running %s: %s" % (rc, c, " | ".join(m)[:600] or err[-400:]),
                       dict(case=list(c) if c else None, stderr=err[-3000:]))
     bad = [0]
-    dist = {"P": {}, "ppn": {}, "flavour": {}, "dtype": {}, "count": {}, "adv": {}, "attach": {}, "rounds": {}, "nocheck_warnings": 0}
+    dist = {"communicator": {}, "P": {}, "ppn": {}, "flavour": {}, "dtype": {}, "count": {}, "adv": {}, "attach": {}, "rounds": {}, "nocheck_warnings": 0}
     model_lines, model_cases = [], []
     for c, r in zip(cases, runs):
-        P, seed, adv, pa, ppn, nonc, flavour, d, count, dseed, sync = c
-        for k, x in (("P", P), ("ppn", ppn), ("flavour", FNAME[flavour]), ("dtype", TNAME[d]), ("count", count), ("adv", adv),
+        P, seed, adv, pa, ppn, nonc, flavour, d, count, dseed, sync, dup = c
+        for k, x in (("communicator", "duplicate (MPI_Comm_dup after attach)" if dup else "original"), ("P", P), ("ppn", ppn), ("flavour", FNAME[flavour]), ("dtype", TNAME[d]), ("count", count), ("adv", adv),
                      ("attach", "explicit" if pa > 0 else ("none" if pa < 0 else ("split_type_roundrobin" if nonc else "split_type"))),
                      ("rounds", "barrier before each write round" if sync else "back to back")):
             dist[k][x] = dist[k].get(x, 0) + 1
@@ -333,7 +373,7 @@ def run(ctx):
         if res:
             dist["nocheck_warnings"] += res["warnings"]
             contrib = [item(d, dseed, q, k) for q in range(P) for k in range(count)]
-            model_lines.append("%d %d %d %d %d %d %d %s" % (P, pa, ppn, nonc, flavour, d, count, hxl(contrib)))
+            model_lines.append("%d %d %d %d %d %d %d %s %d" % (P, pa, ppn, nonc, flavour, d, count, hxl(contrib), dup))
             model_cases.append((c, r, res))
     try:
         mexe = ctx.model("c14")
@@ -344,9 +384,9 @@ def run(ctx):
         nmis = 0
         ncalls = 0
         for (c, r, res), l in zip(model_cases, mout):
-            P, seed, adv, pa, ppn, nonc, flavour, d, count, dseed, sync = c
+            P, seed, adv, pa, ppn, nonc, flavour, d, count, dseed, sync, dup = c
             per = [x.strip() for x in l.split(" | ")]
-            tr = rank_calls(r.trace, P)
+            tr = rank_calls(r.trace, P, dup)
             for q in range(P):
                 m = dict(t.partition("=")[::2] for t in per[q].split()) if q < len(per) else {}
                 o = res["outs"][q]
@@ -360,9 +400,14 @@ def run(ctx):
                     dis.append("allgather model %s impl %s" % (m.get("ag"), hxl(decode(d, hb(o["ag"])))))
                 if hxl(decode(d, hb(o["pre"]))) != m.get("pre"):
                     dis.append("prefix model %s impl %s" % (m.get("pre"), hxl(decode(d, hb(o["pre"])))))
-                life = "%s/%s" % (tr[q].get("_life_attach", "?"), tr[q].get("_life_detach", "?"))
+                life = "%s/%s/%s" % (tr[q].get("_life_attach", "?"), tr[q].get("_life_end", "?"), tr[q].get("_life_detach", "?"))
                 if life != m.get("life"):
-                    dis.append("communicators alive after attach / after detach: model %s impl %s" % (m.get("life"), life))
+                    dis.append("node communicators alive after attach(+dup) / after freeing the duplicate / after detach: model %s impl %s" % (m.get("life"), life))
+                if dup:
+                    got = ",".join(str(x) for x in tr[q].get("dup", ["missing"]))
+                    ncalls += 1
+                    if got != m.get("dup"):
+                        dis.append("MPI calls of MPI_Comm_dup (11 = dup of intranode, 12 = dup of internode, 13 = the communicator): model [%s] impl [%s]" % (m.get("dup"), got))
                 mc = (m.get("calls", ";;;;").split(";") + [""] * 5)[:5]
                 expect = {"mA": mc[0], "mB": mc[0], "mC": mc[0], "ag": mc[1], "pre": mc[2], "cp": mc[3], "w1": mc[3], "w2": mc[3],
                           "fC": mc[4], "fB": mc[4], "fA": mc[4]}
